@@ -24,62 +24,87 @@ def job_streams(sim):
             picked = real.split(" picked=")[1]
             for j, p in enumerate(picked.split(";")):
                 ens, pn, rgen, rgeneng, _eng = p.split("/")
-                out.append((k, j, int(ens), rgen, rgeneng))
+                out.append((k, j, int(ens), rgen, rgeneng, int(pn)))
             k += 1
     return out
 
 
 def predicates(ctx, chain, label, seed, workers):
-    """chain = list of Sims (segments between restarts), in order"""
-    seen = {}
-    ordinal = 0
-    # after a restart that re-issued recorded jobs, the restart file's cstep + |locked| under-counts the
-    # jobs issued (re-issued jobs took fresh ordinals): a LATER restart then re-uses ordinals (open finding)
-    reissued_before = 0
+    """chain = list of Sims (segments between restarts), in order.
+
+    A job's streams must be (seed, [ordinal, j]) / (seed, [ordinal, j, 0]) where the ordinal counts the
+    jobs issued over the whole chain; a job re-issued after a restart is the SAME job (same ensembles and
+    paths, recorded in flight at the stop) and must get the very streams it had; no two different jobs
+    may share a stream and none may use the scheduler's."""
+    next_ord = 0
+    ord_of = {}                # job key (tuple of (ens, pn)) -> ordinal of the job in flight with that key
+    owner = {}                 # stream id -> job key that legitimately owns it
+    nstreams = 0
     rep0 = {"history": label, "params": getattr(chain[-1], "params", None), "ctxseed": ctx.seed}
     for seg, sim in enumerate(chain):
         main_ids = set()
         for (_tag, d, _held) in sim.snaps:
             main_ids.add(d["rng"].split(":")[0] + ":")
         js = job_streams(sim)
-        njobs = (max(k for k, *_ in js) + 1) if js else 0
-        for (k, j, ens, rgen, rgeneng) in js:
-            for kind, sid in (("move", rgen), ("engine", rgeneng)):
-                rep = dict(rep0, segment=seg, job_in_segment=k, ensemble=ens, stream=sid, kind=kind)
-                if sid in seen:
-                    o = seen[sid]
-                    both_after_restart = seg > 0 and o[0] == seg
-                    sig = ("C07:restart-chain:ordinal-reused-after-reissue" if seg > 1 and reissued_before > 0
-                           else "C07:restart:multiworker-stream-collision" if seg > 0 and workers > 1
-                           else "C07:restart:stream-reused-after-restart" if seg > 0
-                           else "C07:stream-shared")
-                    ctx.fail(sig, f"{kind} stream {sid} of job {k} (segment {seg}) was already given to job {o[1]} "
-                                  f"(segment {o[0]}, {o[2]} stream)", dict(rep, other=o, concurrent=both_after_restart))
-                else:
-                    seen[sid] = (seg, k, kind)
-                if sid in main_ids:
-                    ctx.fail("C07:job-shares-scheduler-stream", f"{kind} stream {sid} is the scheduler's own", rep)
-            want_move = f"{seed}:{ordinal + k},{j}"
-            want_eng = f"{seed}:{ordinal + k},{j},0"
-            if rgen != want_move or rgeneng != want_eng:
-                if seg > 1 and reissued_before > 0 and rgen.split(":")[0] == str(seed):
-                    sig = "C07:restart-chain:ordinal-reused-after-reissue"
-                elif seg > 0 and rgen.split(":")[0] != str(seed):
-                    sig = "C07:restart:entropy-not-seed"
-                elif seg > 0:
-                    sig = "C07:restart:ordinal-not-continued"
-                else:
-                    sig = "C07:stream-not-function-of-seed-and-ordinal"
-                ctx.fail(sig, f"job {k} of segment {seg} ensemble {ens}: streams {rgen} / {rgeneng}, expected "
-                              f"{want_move} / {want_eng}", dict(rep0, segment=seg, job_in_segment=k))
-        ordinal += njobs
-        # jobs re-issued in THIS segment (locked0 entries at its start) matter for the NEXT restart
-        n_re = sum(1 for line in sim.lines if line.startswith("locked0 "))
-        if seg > 0:
-            reissued_before += min(n_re, njobs)
+        by_job = {}
+        for (k, j, ens, rgen, rgeneng, pn) in js:
+            by_job.setdefault(k, []).append((j, ens, rgen, rgeneng, pn))
+        n_re = sum(1 for line in sim.lines if line.startswith("locked0 ")) if seg > 0 else 0
+        for k in sorted(by_job):
+            ents = sorted(by_job[k])
+            key = tuple((e, pn) for (_j, e, _r, _re, pn) in ents)
+            reissue = seg > 0 and k < n_re
+            if reissue and key in ord_of:
+                ordinal = ord_of[key]
+            else:
+                if reissue:
+                    ctx.fail("C07:restart:reissued-job-unknown", f"job {key} re-issued in segment {seg} was not in flight before",
+                             dict(rep0, segment=seg, job_in_segment=k))
+                ordinal = next_ord
+                next_ord += 1
+                ord_of[key] = ordinal
+            for (j, ens, rgen, rgeneng, pn) in ents:
+                want_move, want_eng = f"{seed}:{ordinal},{j}", f"{seed}:{ordinal},{j},0"
+                nstreams += 2
+                for kind, sid, want in (("move", rgen, want_move), ("engine", rgeneng, want_eng)):
+                    rep = dict(rep0, segment=seg, job_in_segment=k, ensemble=ens, stream=sid, kind=kind, expected=want)
+                    if sid in main_ids:
+                        ctx.fail("C07:job-shares-scheduler-stream", f"{kind} stream {sid} is the scheduler's own", rep)
+                    if sid in owner and owner[sid] != (key, ordinal):
+                        sig = ("C07:restart-chain:ordinal-reused-after-reissue" if seg > 1
+                               else "C07:restart:multiworker-stream-collision" if seg > 0 and workers > 1
+                               else "C07:restart:stream-reused-after-restart" if seg > 0 else "C07:stream-shared")
+                        ctx.fail(sig, f"{kind} stream {sid} of job {key} (segment {seg}) already belongs to job {owner[sid][0]} "
+                                      f"(ordinal {owner[sid][1]})", rep)
+                    owner.setdefault(sid, (key, ordinal))
+                    if sid != want:
+                        if seg > 0 and sid.split(":")[0] != str(seed):
+                            sig = "C07:restart:entropy-not-seed"
+                        elif seg > 1:
+                            sig = "C07:restart-chain:ordinal-reused-after-reissue"
+                        elif seg > 0:
+                            sig = "C07:restart:ordinal-not-continued"
+                        else:
+                            sig = "C07:stream-not-function-of-seed-and-ordinal"
+                        ctx.fail(sig, f"job {key} (segment {seg}, {'re-issued' if reissue else 'fresh'}, ordinal {ordinal}) "
+                                      f"ensemble {ens}: {kind} stream {sid}, expected {want}", rep)
+        # jobs completed in this segment leave `ord_of` (their key may be issued again as a NEW job later)
+        done_keys = set()
+        for line in sim.lines:
+            if line.startswith("treat "):
+                pin = int(line.split()[1])
+                done_keys.add(pin)
+        # completion is tracked through the in-flight summaries of the last snapshot
+        if sim.snaps:
+            still = set()
+            for (_pin, picked, _eng, _wf) in sim.snaps[-1][2]:
+                still.add(tuple(sorted(picked)))
+            for key in list(ord_of):
+                if tuple(sorted(key)) not in still:
+                    del ord_of[key]
         if sim.error is not None:
             ctx.fail("C07:sampler-raised", f"{type(sim.error).__name__}: {sim.error}", rep0)
-    return len(seen)
+    return nstreams
 
 
 def one(ctx, params, with_model, outs):
@@ -91,7 +116,7 @@ def one(ctx, params, with_model, outs):
     n = predicates(ctx, chain, label, seed, workers)
     ctx.count(n, restarts=len(restarts), workers=("1" if workers == 1 else ">1"))
     for sm in chain:
-        for (k, j, ens, rgen, rgeneng) in job_streams(sm):
+        for (k, j, ens, rgen, rgeneng, _pn) in job_streams(sm):
             ctx.distinct((seed, rgen))
             ctx.distinct((seed, rgeneng))
         if with_model:
